@@ -177,7 +177,7 @@ fn witness_docs() -> Vec<(&'static str, Vec<u8>)> {
         }),
         ("trailer /Prev that points at its own section", {
             let d = tiny_doc(&[]);
-            let x = d.windows(5).rposition(|w| w == b"xref\n").unwrap_or(0);
+            let x = d.windows(6).position(|w| w == b"\nxref\n").map(|i| i + 1).unwrap_or(0);
             String::from_utf8_lossy(&d).replace("/Size 3", &format!("/Size 3/Prev {}", x)).into_bytes()
         }),
         ("xref entries with offsets 18446744073709551615 and 9999999999", {
@@ -191,6 +191,26 @@ fn witness_docs() -> Vec<(&'static str, Vec<u8>)> {
                 out.push_str(l); out.push('\n');
             }
             out.into_bytes()
+        }),
+        ("the same behind 6 bytes in front of the header (start offset + entry offset overflows)", {
+            let d = tiny_doc(&[b"7".to_vec(), b"8".to_vec()]);
+            let t = String::from_utf8_lossy(&d).to_string();
+            let mut out = String::from("%junk\n");
+            let mut seen = 0;
+            for l in t.lines() {
+                if l.ends_with(" 00000 n ") { seen += 1; if seen == 3 { out.push_str("18446744073709551615 00000 n \n"); continue; } if seen == 4 { out.push_str("18446744073709551610 00000 n \n"); continue; } }
+                out.push_str(l); out.push('\n');
+            }
+            out.into_bytes()
+        }),
+        ("streams with corrupt data for every filter", {
+            let st = |filter: &str, data: &[u8]| { let mut o = format!("<</Filter/{}/Length {}>>\nstream\n", filter, data.len()).into_bytes(); o.extend_from_slice(data); o.extend_from_slice(b"\nendstream"); o };
+            tiny_doc(&[
+                st("ASCII85Decode", b"uuuuu~>"), st("ASCII85Decode", b"zz!!~"), st("ASCII85Decode", b"!~>"),
+                st("ASCIIHexDecode", b"4g>"), st("ASCIIHexDecode", b"4"), st("RunLengthDecode", &[5, 1, 2]), st("RunLengthDecode", &[200]),
+                st("LZWDecode", &[0xff, 0xff, 0xff, 0x00]), st("FlateDecode", &[0x78, 0x9c, 0xff, 0xff]), st("FlateDecode", b""),
+                st("DCTDecode", &[0xff, 0xd8, 0xff]), st("CCITTFaxDecode", &[0, 1, 2]), st("JBIG2Decode", &[0]), st("Crypt", b"x"),
+            ])
         }),
         ("stream with /Length 2147483647", tiny_doc(&[b"<</Length 2147483647>>\nstream\nabc\nendstream".to_vec()])),
         ("stream whose /Length refers to itself", tiny_doc(&[b"<</Length 3 0 R>>\nstream\nabc\nendstream".to_vec()])),
